@@ -88,7 +88,7 @@ pub fn run(ctx: &mut Ctx) {
         transition and the model has >=2 properties."
         .into();
     let ctx = &*ctx;
-    ctx.cases("paths", ctx.n(500, 25000), 0, |case| {
+    ctx.cases("paths", ctx.n(2500, 40000), 0, |case| {
         let mut g = gen_graph(&mut case.rng, &Knobs::default());
         let reach = g.reach();
         let k = case.rng.range(1, 7);
@@ -127,7 +127,7 @@ pub fn run(ctx: &mut Ctx) {
         }
         case.distinct(hash, long_discovery && model.props.len() >= 2);
     });
-    ctx.cases("paths_dfs_symmetry", ctx.n(150, 6000), 0, |case| {
+    ctx.cases("paths_dfs_symmetry", ctx.n(1500, 20000), 0, |case| {
         let pairs = case.rng.range(1, 10);
         let mut g = gen_mirror_graph(&mut case.rng, pairs);
         let reach = g.reach();
